@@ -40,6 +40,8 @@ pub struct VmRun {
     pub steps: u64,
     /// instruction kinds executed
     pub kinds: Vec<&'static str>,
+    /// kind of the last instruction executed (the failing one on errors)
+    pub last_kind: &'static str,
 }
 
 pub fn kind_of(i: &Instruction) -> &'static str {
@@ -106,10 +108,11 @@ pub fn run_function(machine: &Machine, m: &Module, fname: &str, args: &[Val], tr
     let mut io = MonitorIO::new();
     let mut kinds: Vec<&'static str> = vec![];
     let mut steps = 0u64;
+    let mut last_kind = "?";
     let (exit, stack) = {
         let mut rs = machine.create_run_state(&mut io, policy_ctx(fname));
         if let Err(e) = rs.set_pc_by_label(&Label::new(ident_of(fname), LabelType::Function)) {
-            return Some(VmRun { exit: Err(e), stack: vec![], io, steps, kinds });
+            return Some(VmRun { exit: Err(e), stack: vec![], io, steps, kinds, last_kind: "?" });
         }
         rs.stack.push(Value::Int(SENTINEL)).expect("push sentinel");
         for a in args {
@@ -120,9 +123,10 @@ pub fn run_function(machine: &Machine, m: &Module, fname: &str, args: &[Val], tr
                 return None;
             }
             steps += 1;
-            if track_kinds && let Some(i) = machine.progmem.get(rs.pc()) {
+            if let Some(i) = machine.progmem.get(rs.pc()) {
                 let k = kind_of(i);
-                if !kinds.contains(&k) {
+                last_kind = k;
+                if track_kinds && !kinds.contains(&k) {
                     kinds.push(k);
                 }
             }
@@ -134,7 +138,7 @@ pub fn run_function(machine: &Machine, m: &Module, fname: &str, args: &[Val], tr
         };
         (exit, rs.stack.as_slice().to_vec())
     };
-    Some(VmRun { exit, stack, io, steps, kinds })
+    Some(VmRun { exit, stack, io, steps, kinds, last_kind })
 }
 
 /// Classification of a machine error for C24 (see pol_sem for the per-variant justification).
